@@ -2,12 +2,14 @@ module verifharness
 
 go 1.18
 
-require github.com/ovn-org/libovsdb v0.0.0
+require (
+	github.com/google/uuid v1.2.0
+	github.com/ovn-org/libovsdb v0.0.0
+)
 
 require (
 	github.com/go-logr/logr v1.2.2 // indirect
 	github.com/go-logr/stdr v1.2.2 // indirect
-	github.com/google/uuid v1.2.0 // indirect
 )
 
 replace github.com/ovn-org/libovsdb => /repo
